@@ -120,20 +120,24 @@ theorem tokenReview_inv {r : Review} {k : KubeInfo} (h : tokenReviewResult r = s
           · simp at h
 
 /-- The kube authenticator yields exactly one identity: the SPIFFE URI of the namespace and service
-    account the API server reported for the token (both non-empty), with that pod information. -/
-theorem kube_identity_from_review {td : String} {cfg : KubeCfg} {hdr : Option (List String)} {bearer : Bool}
-    {r : Review} {c : Caller} {via : Option Client}
-    (h : kubeAuthenticate td cfg hdr bearer r = (.ok c, via)) :
-    bearer = true ∧ via = getKubeClient cfg (clusterIDOf hdr) ∧ via ≠ none ∧
-    ∃ k, tokenReviewResult r = some k ∧ k.podNamespace ≠ "" ∧ k.podSA ≠ "" ∧
+    account the API server reported for the token (both non-empty), with that pod information.  The
+    review that was submitted is for the presented bearer token, bound to the configured audiences
+    (`security.TokenAudiences`), at the API server of the cluster the caller named. -/
+theorem kube_identity_from_review {t : Transport} {td : String} {cfg : KubeCfg} {hdr : Option (List String)}
+    {authVals aud : List String} {r : Review} {c : Caller} {call : Option ReviewCall}
+    (h : kubeAuthenticate t td cfg hdr authVals aud r = (.ok c, call)) :
+    ∃ tok cl k, extractToken t authVals = some tok ∧ getKubeClient cfg (clusterIDOf t hdr) = some cl ∧
+      call = some { client := cl, token := tok, audiences := aud } ∧
+      tokenReviewResult r = some k ∧ k.podNamespace ≠ "" ∧ k.podSA ≠ "" ∧
       c = { identities := [spiffeURI td k.podNamespace k.podSA], kube := k } := by
   unfold kubeAuthenticate at h
   split at h
   · simp at h
-  · rename_i hb
+  · rename_i tok htok
     split at h
     · simp at h
     · rename_i cl hcl
+      simp only at h
       split at h
       · simp at h
       · rename_i k hk
@@ -144,23 +148,67 @@ theorem kube_identity_from_review {td : String} {cfg : KubeCfg} {hdr : Option (L
           · simp at h
           · rename_i hns
             simp only [Prod.mk.injEq, AuthRes.ok.injEq] at h
-            refine ⟨by simpa using hb, ?_, ?_, k, hk, hns, hsa, h.1.symm⟩
-            · rw [hcl]; exact h.2.symm
-            · rw [← h.2]; simp
+            exact ⟨tok, cl, k, htok, hcl, h.2.symm, hk, hns, hsa, h.1.symm⟩
+
+/-- Whenever a TokenReview is submitted - whatever its outcome - it carries the presented token and
+    the configured audiences. -/
+theorem kube_review_binds_token_and_audience {t : Transport} {td : String} {cfg : KubeCfg} {hdr : Option (List String)}
+    {authVals aud : List String} {r : Review} {call : ReviewCall}
+    (h : (kubeAuthenticate t td cfg hdr authVals aud r).2 = some call) :
+    extractToken t authVals = some call.token ∧ call.audiences = aud ∧
+    getKubeClient cfg (clusterIDOf t hdr) = some call.client := by
+  unfold kubeAuthenticate at h
+  split at h
+  · simp at h
+  · rename_i tok htok
+    split at h
+    · simp at h
+    · rename_i cl hcl
+      simp only at h
+      split at h
+      · simp only [Option.some.injEq] at h; subst h; exact ⟨htok, rfl, hcl⟩
+      · split at h
+        · simp only [Option.some.injEq] at h; subst h; exact ⟨htok, rfl, hcl⟩
+        · split at h
+          · simp only [Option.some.injEq] at h; subst h; exact ⟨htok, rfl, hcl⟩
+          · simp only [Option.some.injEq] at h; subst h; exact ⟨htok, rfl, hcl⟩
 
 /-- The kube authenticator never panics. -/
-theorem kube_total (td : String) (cfg : KubeCfg) (hdr : Option (List String)) (bearer : Bool) (r : Review) :
-    (kubeAuthenticate td cfg hdr bearer r).1 ≠ .crash := by
+theorem kube_total (t : Transport) (td : String) (cfg : KubeCfg) (hdr : Option (List String)) (authVals aud : List String)
+    (r : Review) : (kubeAuthenticate t td cfg hdr authVals aud r).1 ≠ .crash := by
   unfold kubeAuthenticate
   split
   · simp
   · split
     · simp
-    · split
+    · simp only
+      split
       · simp
       · split
         · simp
         · split <;> simp
+
+/-- Token extraction: gRPC accepts only a `Bearer ` value; HTTP looks at the first value and accepts
+    `Bearer ` or `Istio `.  No value, no token. -/
+theorem extractToken_nil (t : Transport) : extractToken t [] = none := by
+  cases t <;> simp [extractToken]
+
+/-- OIDC entry point: without an extractable token nothing is verified; otherwise the result is the
+    post-processing of the verifier's verdict - and it never panics on the fixed code. -/
+theorem oidc_entry_total (td : String) (expected : List String) (t : Transport) (authVals : List String) (v : OidcTok) :
+    oidcEntry true td expected t authVals v ≠ .crash := by
+  unfold oidcEntry
+  split
+  · simp
+  · exact oidc_sub_total td expected v
+
+theorem oidc_entry_identity {fixed : Bool} {td : String} {expected : List String} {t : Transport} {authVals : List String}
+    {v : OidcTok} {c : Caller} (h : oidcEntry fixed td expected t authVals v = .ok c) :
+    (extractToken t authVals).isSome = true ∧ oidcAuthenticate fixed td expected v = .ok c := by
+  unfold oidcEntry at h
+  split at h
+  · simp at h
+  · rename_i tok htok; exact ⟨by simp [htok], h⟩
 
 /-- A token is reviewed by the primary cluster only when the caller names the primary cluster, one
     of its aliases, or no cluster; otherwise by the named remote cluster (or its alias target). -/
@@ -351,11 +399,16 @@ theorem cert_total (k : PeerKind) (chains : List (List CertSAN)) : certAuthentic
 example : oidcAuthenticate true "td@corp" ["istio-ca"] (.claims "system:serviceaccount:ns1:sa1" ["x", "istio-ca"]) =
     .ok { identities := ["spiffe://td.corp/ns/ns1/sa/sa1"] } := by decide
 
-example : kubeAuthenticate "cluster.local" ⟨"Kubernetes", [("alias", "remote1")], some ["remote1"]⟩ (some ["alias"]) true
+example : kubeAuthenticate .grpc "cluster.local" ⟨"Kubernetes", [("alias", "remote1")], some ["remote1"]⟩ (some ["alias"])
+      ["Basic x", "Bearer tok"] ["istio-ca"]
       { groups := ["system:serviceaccounts"], username := "system:serviceaccount:istio-system:ztunnel", podName := some ["zt"], podUID := some ["u1"] } =
     (.ok { identities := ["spiffe://cluster.local/ns/istio-system/sa/ztunnel"],
-           kube := { podName := "zt", podNamespace := "istio-system", podUID := "u1", podSA := "ztunnel" } }, some (.remote "remote1")) := by
+           kube := { podName := "zt", podNamespace := "istio-system", podUID := "u1", podSA := "ztunnel" } },
+     some { client := .remote "remote1", token := "tok", audiences := ["istio-ca"] }) := by
   decide
+
+example : extractToken .http ["Istio tok"] = some "tok" ∧ extractToken .grpc ["Istio tok"] = none ∧
+    extractToken .http ["Basic x", "Bearer tok"] = none ∧ extractToken .grpc ["Basic x", "Bearer tok"] = some "tok" := by decide
 
 example : isTrustedAddress "10.1.2.3:555" ["10.0.0.0/8"] = .yes ∧ isTrustedAddress "11.1.2.3:555" ["10.0.0.0/8"] = .no ∧
     isTrustedAddress "[::1]:80" [] = .yes ∧ isTrustedAddress "[::ffff:10.1.2.3]:1" ["10.0.0.0/8"] = .no := by decide
